@@ -164,6 +164,7 @@ def expected_models(rec, flavour):
             transcript_id=ids["transcript_id"], protein_id=ids["protein_id"],
             transcript_symbol=ids["transcript_symbol"],
             biotype="protein_coding" if coding else r["kind"],
+            gene_start=min(b[0] for b in r["exons"]),  # start of the gene row the writer emits (the transcript span)
         ))
     return out
 
